@@ -47,15 +47,46 @@ theorem good_evalStep (P : Problem α) (pr : Params α) (i : Iterate α) :
 theorem good_evalGradPsiHat (P : Problem α) (pr : Params α) (i : Iterate α) (h : Good P pr i) :
     Good P pr (evalGradPsiHat P i) := h
 
-theorem qubLoop_good (P : Problem α) (pr : Params α) (f : Nat) (c : Iterate α) (t b : Nat)
-    (h : Good P pr c) : Good P pr (qubLoop P pr f c t b).1 := by
+theorem qubLoop_good (P : Problem α) (pr : Params α)
+    (stop : Nat → Bool) (f : Nat) (c : Iterate α) (t b : Nat)
+    (h : Good P pr c) : Good P pr (qubLoop P pr stop f c t b).1 := by
   induction f generalizing c t b with
   | zero => simpa [qubLoop] using h
   | succ f ih =>
     unfold qubLoop
     split_ifs
+    · exact h
     · exact ih _ _ _ (good_evalStep P pr _)
     · exact h
+
+/-- **Once the flag is visible the backtracking loop makes no further call.** -/
+theorem qubLoop_stop_noop (P : Problem α) (pr : Params α) (stop : Nat → Bool) (f : Nat)
+    (c : Iterate α) (t b : Nat) (h : stop t = true) :
+    qubLoop P pr stop (f + 1) c t b = (c, t, b, false) := by
+  unfold qubLoop; simp [h]
+
+/-- With a flag that is never lowered and visible from tick `t₀` on, the backtracking loop entered
+    at tick `t` is left at tick `≤ max t (t₀ + 1)` (a pass, 2 calls, is only started while the flag
+    is invisible). -/
+theorem qubLoop_tick_bound (P : Problem α) (pr : Params α) (stop : Nat → Bool)
+    (hm : ∀ a b, a ≤ b → stop a = true → stop b = true) (t0 : Nat) (h0 : stop t0 = true)
+    (f : Nat) (c : Iterate α) (t b : Nat) :
+    (qubLoop P pr stop f c t b).2.1 ≤ max t (t0 + 1) := by
+  induction f generalizing c t b with
+  | zero => simp only [qubLoop]; omega
+  | succ f ih =>
+    unfold qubLoop
+    by_cases hst : stop t
+    · simp only [hst, if_true]; omega
+    · simp only [hst, Bool.false_eq_true, if_false]
+      have hlt : t < t0 := by
+        apply Nat.lt_of_not_le
+        intro hc
+        exact hst (hm t0 t hc h0)
+      split_ifs
+      · refine Nat.le_trans (ih _ (t + 2) (b + 1)) ?_
+        omega
+      · simp only []; omega
 
 /-- After the prox / QUB stage the current iterate is good — whatever the state before. -/
 theorem firstStep_good (P : Problem α) (pr : Params α) (s : St α) : Good P pr (firstStep P pr s) := by
@@ -75,25 +106,25 @@ theorem withGradHat_good (P : Problem α) (pr : Params α) (c : Iterate α) (h :
   · exact good_evalGradPsiHat P pr c h
   · exact h
 
-theorem proxStage_good (P : Problem α) (pr : Params α) (s : St α) :
-    Good P pr (proxStage P pr s).curr := by
+theorem proxStage_good (P : Problem α) (pr : Params α) (stop : Nat → Bool) (s : St α) :
+    Good P pr (proxStage P pr stop s).curr := by
   unfold proxStage
-  exact withGradHat_good P pr _ (qubLoop_good P pr _ _ _ _ (firstStep_good P pr s))
+  exact withGradHat_good P pr _ (qubLoop_good P pr stop _ _ _ _ (firstStep_good P pr s))
 
 /-- `∇ψ(x̂)` held by the iterate is the `eval_grad_L` oracle's answer *at the iterate's own*
     `x̂`, `ŷ` whenever the stopping criterion reads it (no stale gradient after backtracking). -/
 def GradHatCons (P : Problem α) (pr : Params α) (i : Iterate α) : Prop :=
   needGradHat pr = true → i.gradPsiHat = P.gradL i.xhat i.yhat
 
-theorem proxStage_gradHat (P : Problem α) (pr : Params α) (s : St α) :
-    GradHatCons P pr (proxStage P pr s).curr := by
+theorem proxStage_gradHat (P : Problem α) (pr : Params α) (stop : Nat → Bool) (s : St α) :
+    GradHatCons P pr (proxStage P pr stop s).curr := by
   intro hn
   unfold proxStage withGradHat
   simp only [hn, if_true]
   rfl
 
-theorem proxStage_k (P : Problem α) (pr : Params α) (s : St α) :
-    (proxStage P pr s).k = s.k ∧ (proxStage P pr s).cbs = s.cbs ∧ (proxStage P pr s).t = s.t := by
+theorem proxStage_k (P : Problem α) (pr : Params α) (stop : Nat → Bool) (s : St α) :
+    (proxStage P pr stop s).k = s.k ∧ (proxStage P pr stop s).cbs = s.cbs ∧ (proxStage P pr stop s).t = s.t := by
   unfold proxStage; exact ⟨rfl, rfl, rfl⟩
 
 theorem headStep_curr (P : Problem α) (pr : Params α) (stop : Nat → Bool) (oot : Bool) (s : St α) :
@@ -150,10 +181,10 @@ inductive EndsAt (P : Problem α) (pr : Params α) (stop : Nat → Bool) (oot : 
   | head (s : St α)
       (hk : s.k ≤ pr.maxIter)
       (hcbs : s.cbs.length = s.k)
-      (hst : (headStep P pr stop oot (proxStage P pr s)).2.2 ≠ .Busy)
-      (hr : r = exitBlock P pr (headStep P pr stop oot (proxStage P pr s)).1
-                  (headStep P pr stop oot (proxStage P pr s)).2.1
-                  (headStep P pr stop oot (proxStage P pr s)).2.2 x0 y Sig errz0)
+      (hst : (headStep P pr stop oot (proxStage P pr stop s)).2.2 ≠ .Busy)
+      (hr : r = exitBlock P pr (headStep P pr stop oot (proxStage P pr stop s)).1
+                  (headStep P pr stop oot (proxStage P pr stop s)).2.1
+                  (headStep P pr stop oot (proxStage P pr stop s)).2.2 x0 y Sig errz0)
 
 theorem headStep_busy_k (P : Problem α) (pr : Params α) (stop : Nat → Bool) (oot : Bool) (s : St α)
     (hb : (headStep P pr stop oot s).2.2 = .Busy) : s.k ≠ pr.maxIter := by
@@ -176,39 +207,41 @@ theorem mainLoop_endsAtHead (P : Problem α) (pr : Params α) (stop : Nat → Bo
   | succ f ih =>
     unfold mainLoop
     simp only []
-    by_cases hb : (headStep P pr stop oot (proxStage P pr s)).2.2 = .Busy
-    · have hne : ((headStep P pr stop oot (proxStage P pr s)).2.2 != SolverStatus.Busy) = false := by
+    by_cases hb : (headStep P pr stop oot (proxStage P pr stop s)).2.2 = .Busy
+    · have hne : ((headStep P pr stop oot (proxStage P pr stop s)).2.2 != SolverStatus.Busy) = false := by
         simp [hb]
       simp only [hne, Bool.false_eq_true, if_false]
       have hkne := headStep_busy_k P pr stop oot _ hb
-      rw [(proxStage_k P pr s).1] at hkne
+      rw [(proxStage_k P pr stop s).1] at hkne
       apply ih
-      · rw [(advance_k _ _ _ _).1, (headStep_curr P pr stop oot _).2.1, (proxStage_k P pr s).1]; omega
+      · rw [(advance_k _ _ _ _).1, (headStep_curr P pr stop oot _).2.1, (proxStage_k P pr stop s).1]; omega
       · rw [(advance_k _ _ _ _).1, (advance_k _ _ _ _).2, (headStep_curr P pr stop oot _).2.1,
-          (headStep_curr P pr stop oot _).2.2.1, (proxStage_k P pr s).1, (proxStage_k P pr s).2.1, hcbs]
-      · rw [(advance_k _ _ _ _).1, (headStep_curr P pr stop oot _).2.1, (proxStage_k P pr s).1]; omega
-    · have hne : ((headStep P pr stop oot (proxStage P pr s)).2.2 != SolverStatus.Busy) = true := by
+          (headStep_curr P pr stop oot _).2.2.1, (proxStage_k P pr stop s).1, (proxStage_k P pr stop s).2.1, hcbs]
+      · rw [(advance_k _ _ _ _).1, (headStep_curr P pr stop oot _).2.1, (proxStage_k P pr stop s).1]; omega
+    · have hne : ((headStep P pr stop oot (proxStage P pr stop s)).2.2 != SolverStatus.Busy) = true := by
         simp [hb]
       simp only [hne, if_true]
       exact .head s hk hcbs hb rfl
 
-theorem qubLoop_tick_le (P : Problem α) (pr : Params α) (f : Nat) (c : Iterate α) (t b : Nat) :
-    t ≤ (qubLoop P pr f c t b).2.1 := by
+theorem qubLoop_tick_le (P : Problem α) (pr : Params α)
+    (stop : Nat → Bool) (f : Nat) (c : Iterate α) (t b : Nat) :
+    t ≤ (qubLoop P pr stop f c t b).2.1 := by
   induction f generalizing c t b with
   | zero => simp [qubLoop]
   | succ f ih =>
     unfold qubLoop
     split_ifs
+    · exact le_refl _
     · exact le_trans (by omega) (ih _ _ _)
     · exact le_refl _
 
 /-- the tick (number of oracle calls) only grows through a pass of the loop body -/
 theorem head_tick_le (P : Problem α) (pr : Params α) (stop : Nat → Bool) (oot : Bool) (s : St α) :
-    s.tick ≤ (headStep P pr stop oot (proxStage P pr s)).1.tick := by
+    s.tick ≤ (headStep P pr stop oot (proxStage P pr stop s)).1.tick := by
   unfold headStep proxStage
   simp only []
   have h1 : s.tick ≤ firstTick pr s := by unfold firstTick; omega
-  exact le_trans (le_trans (le_trans h1 (qubLoop_tick_le P pr _ _ _ _)) (Nat.le_add_right _ _))
+  exact le_trans (le_trans (le_trans h1 (qubLoop_tick_le P pr stop _ _ _ _)) (Nat.le_add_right _ _))
     (Nat.le_add_right _ _)
 
 theorem initState_k (P : Problem α) (pr : Params α) (x0 gV : Vec α) (nan : α) (s : St α)
